@@ -13,6 +13,7 @@ import CBV.Lemmas.C06Lex
 import CBV.Lemmas.C06ReprGen
 import CBV.Lemmas.C06ReprParse
 import CBV.Lemmas.C06ReprSpacing
+import CBV.Lemmas.C06ReprNeg
 import Mathlib.Data.String.Basic
 import CBV.Gen.TC06
 
@@ -536,6 +537,18 @@ example : True := by
   have _h1 := T_C06_repr_accepted_fixed_ge_one (5224175567749775 / 4503599627370496) (by norm_num) (by decide +kernel)
   have _h2 := T_C06_repr_accepted_fixed tenth (by unfold tenth; norm_num) (by decide +kernel) (by decide +kernel)
   trivial
+
+/-- **T_C06_float_neg_partial.** A leading `-` negates the value the token reader assigns: for every token `cs` that does not itself
+    begin with `-` and whose leading digits are followed by a decimal point (all of Python's `repr` forms except `de±XX`),
+    `floatValue ('-' :: cs) = -(floatValue cs)`. With `T_C06_repr_layout_fixed` the fixed-notation text of a negative double reads
+    back to the negated decimal. Full statement (not proved): `reprOk true x (pyReprChars true x) = true` for negative doubles —
+    missing: the assembly with the sign check of `reprOk` and the no-point exponent form. -/
+theorem T_C06_float_neg_partial (cs : List Char) (h : (cs.head? == some '-') = false)
+    (hdot : (cs.dropWhile Char.isDigit).head? = some '.') :
+    floatValue ('-' :: cs) = (floatValue cs).map (fun q => -q) := floatValue_neg_partial cs h hdot
+
+example : floatValue "-1.16".toList = (floatValue "1.16".toList).map (fun q => -q) :=
+  T_C06_float_neg_partial "1.16".toList (by decide) (by decide)
 
 /-- **T_C06_repr_layout_fixed.** Reading the fixed-notation layouts back: for any digits `ds` (value `M`) and decimal point position
     `-4 < dp ≤ 16`, `floatValue (reprLayout ds dp) = M · 10^(dp − |ds|)`. -/
